@@ -283,7 +283,7 @@ func Child(c *run.Ctx, name string) {
 			map[string]any{"start": cfg.Start, "n": cfg.N, "leaked": diff})
 	}
 	c.Event("census_checks", 1)
-	w.Server.Close()
+	w.Shutdown()
 }
 
 func clip(b []byte, n int) []byte {
